@@ -99,4 +99,60 @@ PROPS = {
         "level_text": "Every (type, range, string) boundary triple is decided against an independent big-decimal specification on every run; typed access is checked as a state machine with a snapshot after every operation.",
         "level_note": "Trusted: the decimal model (string shape + i128 arithmetic after length check), the literal tables copied from the documentation.",
     },
+    "C02": {
+        "quick_ms": 20000,
+        "thorough_ms": 300000,
+        "floors": {"result.ok": 20000, "spelling.cluster.option-last": 200, "spelling.opt.long-eq": 1000, "spelling.opt.short-attached": 300,
+                   "spelling.prefix.long": 500, "spelling.escape.optional": 300, "spelling.escape.required-for-last": 300,
+                   "spelling.terminator": 200, "spelling.sub.short-flag": 100, "spelling.sub.long-flag": 100, "spelling.pos.multi": 1000},
+        "rule": "conventional-class command trees (flags SetTrue/SetFalse/Count, options Set/Append with num_args in {1, 2, 1..=3, 2..=3, 1.., 0.., 0..=1}, "
+                "delimiters, require_equals, terminators, positionals with a multi-valued/last final one, subcommands with aliases and "
+                "short/long flag forms, infer_long_args/infer_subcommands, depth <= 2) x valid intents (ordered occurrences whose values are "
+                "unique ids `<arg>o<occ>v<k>`, delimiter tokens with empty pieces) x spellings (canonical + 3 random styles: =/space, attached "
+                "short, -o=v, clusters with option last, aliases, unique prefixes, optional/required `--`, terminators). Oracle: the line "
+                "parses; per argument the raw occurrences equal the intent's (after the action's fold and delimiter split), get_raw == "
+                "flattened occurrences, sources, flag/count values, subcommand chain; indices of command-line values are distinct and "
+                "sorted like the argv places the renderer recorded. distinct_nontrivial = distinct (spec, argv) with >= 1 token.",
+        "assumptions": COMMON_ASSUME + ["the class is where the documented grammar is unambiguous: values never start with '-', never equal or prefix a subcommand name; "
+                                        "a multi-valued occurrence is closed by a following flag/option, its terminator, `--`, the end (options also by reaching the maximum or an attached value)"],
+        "technique": "reference-model monitor: intent -> spellings -> observed ArgMatches compared with the intent (conservation/exactly-once on uniquely tagged values, index ordering)",
+        "level_text": "Each generated line is a history with unique value ids; attribution is decided exactly (multiset + order + occurrence boundaries), 10^5-10^6 lines per quick run.",
+        "level_note": "Trusted: the ~25-rule expectation (DESIGN C02 calibrated rules). Commands outside the conventional class are not judged here (C01 covers totality there).",
+    },
+    "C07": {
+        "quick_ms": 15000,
+        "thorough_ms": 240000,
+        "floors": {"fold.ok": 20000, "repeat.rejected": 2000, "fold.count_saturated": 200, "fold.removed_by_override": 1000,
+                   "fold.append_multi": 1000, "seq.count_boundary": 500},
+        "rule": "1-4 arguments (Set/Append/SetTrue/SetFalse/Count, optional num_args 1..=2, delimiter, default) with a random override graph "
+                "(both declaration directions, self-overrides, args_override_self) x occurrence sequences of length 0..300 "
+                "(0, 1, 2, 254, 255, 256, 257, 300 always drawn; long runs focus one argument with others interleaved) x spellings "
+                "(clusters -vvvv/-ab, long, =, attached). Oracle: sequential fold model (Set: last or ArgumentConflict; Append: all "
+                "occurrences in order with boundaries; Count: min(n,255); flags: truth with opposite default and DefaultValue source when "
+                "absent; an override in either direction removes the other's earlier occurrences).",
+        "assumptions": COMMON_ASSUME + ["override semantics taken from the documentation: whichever of a/b is given last remains"],
+        "technique": "reference-model monitor: sequential fold over recorded occurrence histories with unique value ids",
+        "level_text": "Each argv is an operation history; the final ArgMatches must equal the fold of that history. Boundary lengths around 255 are drawn in every shard.",
+        "level_note": "Trusted: the 40-line fold model.",
+    },
+    "C08": {
+        "quick_ms": 20000,
+        "thorough_ms": 300000,
+        "floors": {"rewrite.both-ok": 20000, "ambiguous.probes": 2000, "ambiguous.arg-vs-flag-subcommand": 100, "ambiguous.sub-probes": 100,
+                   "spelling.prefix.long": 500, "spelling.cluster.flags": 300, "spelling.opt.short-attached": 300, "spelling.escape.optional": 300,
+                   "spelling.sub.alias": 200, "rewrite.index-rank-compare": 200},
+        "rule": "conventional command trees (as C02) x valid intents; the canonical rendering (full names, separate tokens) is compared with 3 "
+                "random re-spellings of the same intent (compositions of: --o=v / --o v, -ov / -o v / -o=v, clusters / separate flags, "
+                "option last in a cluster, long/short/subcommand/flag-subcommand aliases, unique prefixes under infer_*, `--` before a "
+                "pure positional suffix): both must succeed with `ArgMatches ==` (sources, raw occurrences, indices) — index ranks "
+                "instead of values when a short flag subcommand spelling is involved — or both fail with the same kind. Ambiguity probes: "
+                "every prefix shared by two distinct inferable targets (arguments, and long flag subcommands under infer_subcommands) "
+                "and not itself a name must be rejected as UnknownArgument (`--p` and `--p=v`); likewise ambiguous subcommand-name prefixes.",
+        "assumptions": COMMON_ASSUME + ["rewrites are applied only where documented as equivalent (no =-form for several value tokens, no attach before a terminator, "
+                                        "`--` only without last/allow_missing_positional)",
+                                        "a short flag subcommand continues the parent's index counter by design: index values are compared up to order there"],
+        "technique": "metamorphic runtime monitor: ArgMatches equality across documented-equivalent spellings + ambiguity probes",
+        "level_text": "Agreement between executions of the same intent under different spellings, with ArgMatches' own PartialEq as the comparison; ambiguous prefixes enumerated per command.",
+        "level_note": "Trusted: the renderer's notion of 'equivalent' (DESIGN C08).",
+    },
 }
